@@ -31,10 +31,11 @@ RunOK == Live => R.run_err = ""
 \* every ammo was fired: the instances went on after each response
 AllFired == Live => R.fired = R.shots /\ R.answered = R.shots
 
-\* Which ammo were shot?  With several instances a token is not tied to an ammo: when the last tokens are
-\* taken, an instance may already hold the NEXT ammo of the ring (position shots+1 ..) and win the token,
-\* while the holder of an earlier one goes empty-handed.  So the shots are `shots` of the first
-\* shots+inst-1 ring positions and include the first shots-inst+1 (single instance: exactly the first `shots`).
+\* Which ammo were shot?  With several instances a token is not tied to an ammo: an instance that is
+\* descheduled between Acquire and Wait keeps ITS ring position while the others use up the tokens on the
+\* following positions (up to position shots+inst-1); when it wakes up no token is left and its ammo is
+\* dropped - any position, not only the last ones (seen under load average 100).  So the shots are the first
+\* shots+inst-1 ring positions minus inst-1 of them: per letter at most its count there, `shots` in total.
 Ext == R.ammo \o SubSeq(R.ammo, 1, R.inst - 1)
 CountIn(x, n) == Cardinality({j \in 1..n : Ext[j] = x})
 Letters == {Ext[j] : j \in 1..Len(Ext)}
@@ -53,7 +54,7 @@ SamplesOK == Live =>
          LET exp == Outcome(R.gun, x, R.posts)
              n == ShotsWith(x)
              mine == {j \in 1..Len(R.samples) : R.samples[j].letter = x}
-         IN /\ CountIn(x, R.shots - R.inst + 1) <= n /\ n <= CountIn(x, R.shots + R.inst - 1)
+         IN /\ n <= CountIn(x, R.shots + R.inst - 1)
             /\ Cardinality(mine) = n * Len(exp)
             /\ \A k \in 1..Len(exp) :
                  Cardinality({j \in mine : R.samples[j].step = StepName(k, Len(exp)) /\ Matches(R.samples[j], exp[k])}) = n
